@@ -29,7 +29,34 @@ def run_check(pid: str, tier: str, seed: int, program=None, quiet=False, write=T
     try:
         S = Session(program or Program())
         mod.run(chk, S)
+        S.absorb_all()
         chk.extra["analysed"] = S.stats()
+        # trusted base, decided: every linear-algebra primitive the rules of this check met while interpreting (their own and their lenders') still forwards
+        # what the domains assume about it
+        from .rules import backend_contract as _bc
+
+        # met = called while interpreting (by this check's rules or its lenders'), plus the primitives the rule module declares because the library hands
+        # them on as *values* into code paths of this property (a default solve): those are never "called" by name
+        met = set(S.prims) | {f"linalg.{n}" for n in getattr(mod, "TRUSTED_VALUE_PRIMITIVES", ())}
+        usage = {k: set(v) for k, v in S.prim_usage.items()}
+        for lender in getattr(S, "_borrow_cache", {}).values():
+            met |= getattr(lender, "prims_met", set())
+            for k, shapes in getattr(lender, "prim_usage", {}).items():
+                usage.setdefault(k, set()).update(shapes)
+        for n in getattr(mod, "TRUSTED_VALUE_PRIMITIVES", ()):
+            usage[f"linalg.{n}"] = None  # handed on as a value: called by code this check does not follow, so every argument counts
+        names = sorted(n for n in (p.split(".", 1)[1] for p in met if p.startswith("linalg.")) if n in _bc.CONTRACTS)
+        chk.extra["analysed"]["linalg_primitives_met"] = names
+        if names:
+            rtb = chk.rule(f"R-{pid}-TB", "trusted base, decided: the linear-algebra primitives this check met (" + ", ".join(names) + ") are one-line forwards to the library routines with the "
+                           "routing and constants the domains assume (explicit defaults, local variables and parameter names play no role)", floor=len(names))
+            _bc.linalg_contract_rules(chk, S, rtb, names, {n: usage.get(f"linalg.{n}") for n in names})
+        others = sorted(p for p in met if p.split(".", 1)[0] in ("np", "flow", "func", "random", "tree"))
+        if others:
+            rtb2 = chk.rule(f"R-{pid}-TB2", "trusted base, decided: the array / control-flow / transformation / random / pytree primitives this check met are transparent forwards to the "
+                            "like-named library routines (every parameter reaches the call once, in its place, nothing else is passed), or equal their tabled expression", floor=1)
+            n2 = _bc.forward_contract_rules(chk, S, rtb2, others, usage)
+            chk.extra["analysed"]["other_primitives_checked"] = n2
     except AnalysisError as e:
         chk.analysis_error(str(e))
     except RecursionError as e:  # pragma: no cover
